@@ -392,6 +392,13 @@ class Lexer(object):
                     self.valid_prev_token.type == 'PERIOD'):
                 self.cur_token.type = 'ID'
 
+            # a '++' or '--' separated from the previous token by a line
+            # terminator can only be a prefix operator (7.9.1); the
+            # grammar has no postfix production for these token types.
+            if (self.cur_token.type in ('PLUSPLUS', 'MINUSMINUS') and
+                    self.cur_token_line_terminated):
+                self.cur_token.type = 'LT_' + self.cur_token.type
+
             if self.cur_token.type in ('LPAREN',):
                 # if we encounter a FOR, IF, WHILE, then whatever in
                 # the parentheses are marked.  Otherwise just push
@@ -522,6 +529,7 @@ class Lexer(object):
         'LE', 'GE',                             # <= and >=
         'OR', 'AND',                            # || and &&
         'PLUSPLUS', 'MINUSMINUS',               # ++ and --
+        'LT_PLUSPLUS', 'LT_MINUSMINUS',         # the same, after a newline
         'LSHIFT',                               # <<
         'RSHIFT', 'URSHIFT',                    # >> and >>>
         'PLUSEQUAL', 'MINUSEQUAL',              # += and -=
